@@ -264,7 +264,8 @@ RULES.append(("C08.i", "branch-commit: between the decision to perform an effect
 
 
 def rule_deps(ctx):
-    from . import c20
+    from . import c20, c01
+    c01.rule_deadline_impls(ctx)
     c20.rule_a(ctx)
     c20.rule_b(ctx)
 
